@@ -1,9 +1,11 @@
-\* one schedule per transition of the forced state graph (VIEW hides hist/mon)
+\* forced mode with VIEW (history and monitor hidden): one schedule per transition (quick tier)
+\* (the check generates its cfgs from families/transactions.py:TIERS; this file mirrors one of them for manual runs:
+\*  tlc -deadlock -config MC_Transactions_cover.cfg Transactions)
 CONSTANTS
   Kinds = {"base", "retry", "timed"}
-  RCs = {0,1,2}
-  RDs = {1,2,3}
-  TOs = {0,1,3}
+  RCs = {0, 1}
+  RDs = {1, 2}
+  TOs = {0, 1}
   MaxOps = 3
   CbMayFail = TRUE
   Devs = {}
